@@ -10,12 +10,14 @@
      (a) proved for the engine-level delete of ANY batch of series ([C17_delete_exact], tombstone
          coalescing included) and for the per-shard loop without the measurement shortcut
          ([C17_delete_bucket_exact_partial]: "selected by the matcher" — equal to [holds] under
-         C16's [wf_key], see C16_engine_key_correct); REFUTED with the shortcut the HTTP handler
-         triggers for [_measurement != "x"] ([C17_measurement_neq_shortcut_refuted], finding).
+         C16's [wf_key], see C16_engine_key_correct) and WITH the shortcut, which the store now
+         takes for an equality only ([C17_delete_bucket_exact_shortcut]; repair of finding
+         measurement-neq-shortcut, former witness: [C17_measurement_neq_fixed]).
          Like C03, the model has no snapshot in flight (C03's hypothesis "no snapshot pending").
      (b) "has data => listed" proved ([C17_data_stays_listed]); the exact reconciliation rule is
-         [C17_reconcile_spec]; "listed => has data" is REFUTED twice
-         ([C17_metadata_reconciled_refuted_tombstones], [..._refuted_prefix], findings).
+         [C17_reconcile_spec]; "listed => has data" is REFUTED
+         ([C17_metadata_reconciled_refuted_tombstones], finding); the second former refutation
+         (series keys extending one another) is repaired: [C17_metadata_reconciled_prefix_fixed].
      (c) proved for the epoch-tracker model over all interleavings of its four atomic steps
          ([C17_guard_blocks_only_conflicts], [C17_nonconflicting_write_never_blocked],
          [C17_delete_waits_for_older_writes], [C17_no_deadlock]). *)
@@ -63,19 +65,49 @@ Proof.
 Qed.
 Print Assumptions C17_delete_bucket_exact_partial.
 
-(** REFUTED with the shortcut: the HTTP handler extracts [_measurement != "m0"] as the
-    measurement expression; the store then stops after measurement m0 (or does nothing at all
-    when m0 does not exist in the shard): data of m1, which the predicate selects, stays. *)
+(** WITH the shortcut (the store takes it when the measurement expression is an equality
+    [_measurement = n]; the predicate then selects series of measurement [n] only): stopping
+    after [n], or skipping a shard that does not list [n], loses nothing. *)
+Theorem C17_delete_bucket_exact_shortcut : forall defs p lo hi n sh k t,
+  wf_shard sh ->
+  (forall s, In s (sh_listed sh) ->
+             matches no_regex p (engine_key (sname defs s) (stags defs s)) = true -> sname defs s = n) ->
+  let s := series_of k in
+  let sel := In s (sh_listed sh) /\
+             matches no_regex p (engine_key (sname defs s) (stags defs s)) = true /\
+             in_range lo hi t = true in
+  (sel -> get (shard_delete defs p lo hi (Some n) sh) k t = None) /\
+  (~ sel -> get (shard_delete defs p lo hi (Some n) sh) k t = get sh k t).
+Proof.
+  intros defs p lo hi n sh k t W H s sel. unfold shard_delete.
+  destruct (existsb (bytes_eqb n) (meas_of defs (sh_listed sh))) eqn:Ex.
+  - assert (Hn : In n (meas_of defs (sh_listed sh))).
+    { apply existsb_exists in Ex as (x & Hx & E). apply beqb_iff in E. subst. exact Hx. }
+    destruct (del_loop_shortcut_exact defs p lo hi n (meas_of defs (sh_listed sh)) sh k t W H Hn) as [H1 H2].
+    split.
+    + intros (A & B & C). apply H1. split; auto. split; auto.
+      unfold meas_of. apply In_sort_names. apply in_map. exact A.
+    + intros Hn'. apply H2. intros (A & _ & B & C). apply Hn'. split; auto.
+  - split; [|reflexivity]. intros (A & B & C). exfalso.
+    assert (Hin : In n (meas_of defs (sh_listed sh))).
+    { unfold meas_of. apply In_sort_names. rewrite <- (H s A B). apply in_map. exact A. }
+    assert (existsb (bytes_eqb n) (meas_of defs (sh_listed sh)) = true).
+    { apply existsb_exists. exists n. split; auto. apply beqb_iff. reflexivity. }
+    congruence.
+Qed.
+Print Assumptions C17_delete_bucket_exact_shortcut.
+
+(** The former witness of finding measurement-neq-shortcut: [_measurement != "m0"] through the
+    HTTP handler.  The store no longer takes the shortcut for an inequality (mname = None):
+    the point of m1, which the predicate selects, is deleted. *)
 Definition w_defs2 : list sdef := [([109; 48]%N, []); ([109; 49]%N, [])].        (* m0 ; m1 *)
 Definition w_neq_m0 : pred := PCmp OpNeq (LRef MTAG) (RLit [109; 48]%N).
 Definition w_sh_neq : shard := shard_write [(0%N, 1, 10); (2%N, 3, 12)] (SH [] [] []).
-Theorem C17_measurement_neq_shortcut_refuted :
-  let sh' := shard_delete w_defs2 w_neq_m0 MinInt64 MaxInt64 (Some [109; 48]%N) w_sh_neq in
+Example C17_measurement_neq_fixed :
+  let sh' := shard_delete w_defs2 w_neq_m0 MinInt64 MaxInt64 None w_sh_neq in
   holds no_regex w_neq_m0 ((MTAG, sname w_defs2 1) :: stags w_defs2 1) = true /\
-  in_range MinInt64 MaxInt64 3 = true /\
-  get sh' 2%N 3 = Some 12.
+  get sh' 2%N 3 = None /\ get sh' 0%N 1 = Some 10 /\ sh_listed sh' = [0%N].
 Proof. vm_compute. repeat split; reflexivity. Qed.
-Print Assumptions C17_measurement_neq_shortcut_refuted.
 
 (** ** (b) metadata *)
 Theorem C17_data_stays_listed : forall defs sh sel lo hi k t v,
@@ -97,7 +129,7 @@ Theorem C17_reconcile_spec : forall defs sh sel lo hi s,
 Proof. exact reconcile_spec. Qed.
 Print Assumptions C17_reconcile_spec.
 
-(** "listed => has data" REFUTED (1): points at t=1 and t=5 of one key in a TSM file; deletes
+(** "listed => has data" REFUTED: points at t=1 and t=5 of one key in a TSM file; deletes
     [1,1] then [5,5]: the two tombstones are not contiguous, the key stays in the file index,
     the series stays listed although nothing of it is readable. *)
 Definition w_defs1 : list sdef := [([109; 48]%N, [([116; 48]%N, [97]%N)])].       (* m0,t0=a *)
@@ -113,19 +145,19 @@ Theorem C17_metadata_reconciled_refuted_tombstones :
 Proof. vm_compute. repeat split; reflexivity. Qed.
 Print Assumptions C17_metadata_reconciled_refuted_tombstones.
 
-(** REFUTED (2): series m0,t0=b loses its only point; series m0,t0=b,t1=a of the same batch —
-    whose key has the first key as a byte prefix — keeps a cached value: the [hasCacheValues]
-    prefix walk keeps the FIRST series listed. *)
+(** The former witness of finding series-key-prefix-of-another-kept-listed: series m0,t0=b
+    loses its only point; series m0,t0=b,t1=a of the same batch — whose key has the first key
+    as a byte prefix — keeps a cached value.  The [hasCacheValues] walk now looks at the fields
+    of the series itself only: the first series leaves the listing. *)
 Definition w_defs3 : list sdef :=
   [([109; 48]%N, [([116; 48]%N, [98]%N)]); ([109; 48]%N, [([116; 48]%N, [98]%N); ([116; 49]%N, [97]%N)])].
 Definition w_sh_prefix : shard :=
   shard_delete w_defs3 w_eq_m0 4 6 None (shard_write [(0%N, 4, 10); (2%N, 0, 11)] (SH [] [] [])).
-Theorem C17_metadata_reconciled_refuted_prefix :
-  In 0%N (sh_listed w_sh_prefix) /\
+Example C17_metadata_reconciled_prefix_fixed :
+  sh_listed w_sh_prefix = [1%N] /\
   read_key (get w_sh_prefix) (shard_times w_sh_prefix) 0%N = [] /\
-  read_key (get w_sh_prefix) (shard_times w_sh_prefix) 1%N = [].
-Proof. vm_compute. repeat split; auto. Qed.
-Print Assumptions C17_metadata_reconciled_refuted_prefix.
+  read_key (get w_sh_prefix) (shard_times w_sh_prefix) 2%N = [(0, 11)].
+Proof. vm_compute. repeat split; reflexivity. Qed.
 
 (** ** (c) the epoch tracker and the guards: all interleavings of the four atomic steps *)
 Theorem C17_guard_blocks_only_conflicts : forall es tr w,
